@@ -49,6 +49,16 @@ def build(rnd, big=False):
         memsz = filesz + rnd.choice([0, 0, 1, 4, 64, rnd.randrange(0, 3000)])
         segs.append(dict(type=1, vaddr=va, filesz=filesz, memsz=memsz, data=rand_bytes(rnd, filesz)))
         va += memsz + rnd.choice([0, 0, 1, 4, 16, rnd.randrange(0, 0x800), rnd.randrange(0, 0x20000) if rnd.random() < 0.1 else 0])
+    # physical addresses: equal to the virtual ones (C12's quantifier), shifted upwards (the stack then starts higher), or
+    # - in files without a .stack section - arbitrary (C11 places by p_vaddr whatever p_paddr says)
+    pmode = rnd.choice([0, 0, 0, 0, 0, 0, 1, 1, 2])
+    for s in segs:
+        if pmode == 0:
+            s["paddr"] = s["vaddr"]
+        elif pmode == 1:
+            s["paddr"] = s["vaddr"] + rnd.choice([0, 4, 0x10, rnd.randrange(0, 0x400)])
+        else:
+            s["paddr"] = rnd.choice([0, 0x10, s["vaddr"] // 2, rnd.randrange(0, 0x40000)])
     img_end = max(s["vaddr"] + s["memsz"] for s in segs)
     # ---- .got inside the file contents of one segment
     got = None
@@ -107,7 +117,7 @@ def build(rnd, big=False):
         syms.append(struct.pack(">IIIBBH", idx, val, rnd.randrange(0, 100), rnd.randrange(256), 0, rnd.randrange(0, 8)))
     symtab = b"".join(syms)
     has_got = got is not None
-    has_stack = rnd.random() < 0.93
+    has_stack = rnd.random() < 0.93 and pmode != 2
     has_symtab = rnd.random() < 0.93
     secs = []          # dict(name, addr, blob or None, size, link-name, entsize)
     secs.append(dict(name=".text", addr=segs[0]["vaddr"], blob=None, size=segs[0]["filesz"]))
@@ -191,7 +201,7 @@ def build(rnd, big=False):
     pht = b""
     for p in phs:
         if p["type"] == 1:
-            pht += be32(1) + be32(p["off"]) + be32(p["vaddr"]) + be32(p["vaddr"]) + be32(p["filesz"]) + be32(p["memsz"]) + be32(rnd.randrange(8)) + be32(rnd.choice([1, 4, 0x1000]))
+            pht += be32(1) + be32(p["off"]) + be32(p["vaddr"]) + be32(p["paddr"]) + be32(p["filesz"]) + be32(p["memsz"]) + be32(rnd.randrange(8)) + be32(rnd.choice([1, 4, 0x1000]))
         else:
             pht += be32(p["type"]) + be32(p["off"]) + be32(p["vaddr"]) + be32(p["paddr"]) + be32(p["filesz"]) + be32(p["memsz"]) + be32(rnd.randrange(8)) + be32(rnd.choice([0, 1, 4]))
     body[pht_at:pht_at + len(pht)] = pht
@@ -207,7 +217,7 @@ def build(rnd, big=False):
     hdr = (ident + be16(2) + be16(46) + be32(1) + be32(BASE if rnd.random() < 0.5 else rnd.randrange(1 << 32)) + be32(phoff) + be32(shoff)
            + be32(rnd.randrange(1 << 32)) + be16(52) + be16(32) + be16(len(phs)) + be16(40) + be16(len(secs)) + be16(names.index(".shstrtab")))
     assert len(hdr) == 52
-    info.update(has_got=has_got, has_stack=has_stack, has_symtab=has_symtab, got_n=(got or {}).get("n", 0), stack=stack_size,
+    info.update(pmode=pmode, has_got=has_got, has_stack=has_stack, has_symtab=has_symtab, got_n=(got or {}).get("n", 0), stack=stack_size,
                 nsym=nsym, exit_idx=exit_idx, size=52 + len(body))
     return hdr + bytes(body), info
 
